@@ -519,6 +519,7 @@ class FunctionVerifier:
         I.translator = self.tr
         I.fn_contract = c
         I.extern = self.extern
+        I.module_consts = getattr(self, 'module_consts', None)
         I.name_prefix = c.qualname
         # parameters
         argnames = [a.arg for a in self.node.args.posonlyargs + self.node.args.args + self.node.args.kwonlyargs]
